@@ -77,7 +77,7 @@ def replay(path, call):
     import tempfile, shutil
     scratch = tempfile.mkdtemp(prefix='cct-verif-xh-', dir='/var/tmp')
     try:
-        p = subprocess.run([sys.executable, '-c', code], cwd=scratch, env=_env(), capture_output=True, text=True, timeout=120)
+        p = subprocess.run([sys.executable, '-c', code], cwd=scratch, env=dict(_env(), CCT_XH_REALFILES='1'), capture_output=True, text=True, timeout=120)
     finally:
         shutil.rmtree(scratch, ignore_errors=True)
     try:
